@@ -50,6 +50,42 @@ func init() {
 	}
 	add("C07", 1, 40)
 	add("C01", 1, 40)
+	// closewindow: the handler ends a client-streaming / bidi RPC (status + trailers) before the
+	// caller has half-closed; the caller's CloseSend lands while the receive loop is inside the
+	// finish path. If CloseSend reports the RPC's terminal status (CloseAndRecv hands it to the
+	// application verbatim), the trailers are available from that moment on (C02).
+	families["closewindow"] = famCloseWindow
+	addCW := func(id string, quickReps, thoroughReps int) {
+		prev := listers[id]
+		listers[id] = func(tier string, seed int64) []Case {
+			out := prev(tier, seed)
+			rng := rand.New(rand.NewSource(seed*1361 + 909))
+			reps := quickReps
+			if tier == "thorough" {
+				reps = thoroughReps
+			}
+			for r := 0; r < reps; r++ {
+				for _, dir := range []string{"forward", "reverse"} {
+					for _, fc := range []bool{true, false} {
+						for _, pt := range []string{"client.finish.afterDone", "client.finish.betweenPublish", "client.recv.beforeAccept"} {
+							for _, shape := range []string{"ClientStream", "Bidi"} {
+								for when := 0; when < 3; when++ {
+									cfg := WorldCfg{Dir: dir}
+									if !fc {
+										cfg.ClientNoFC, cfg.ServerNoFC = true, true
+									}
+									out = append(out, Case{Family: "closewindow", Seed: rng.Int63(), Cfg: cfg, S: map[string]string{"point": pt, "shape": shape}, P: map[string]int{"when": when, "code": 1 + rng.Intn(16)}})
+								}
+							}
+						}
+					}
+				}
+			}
+			return out
+		}
+	}
+	addCW("C02", 1, 30)
+	addCW("C07", 1, 30)
 }
 
 func famFinishWindow(w *World, c *Case, rng *rand.Rand) {
@@ -144,5 +180,55 @@ func famFinishWindow(w *World, c *Case, rng *rand.Rand) {
 	}
 	w.CheckDelivery()
 	w.Stat("finishwindow_runs", 1)
+	w.Finish()
+}
+
+func famCloseWindow(w *World, c *Case, rng *rand.Rand) {
+	if err := w.Open(nil); err != nil {
+		w.Violate("C11", "open-failed", "opening the tunnel failed in configuration %s: %v", w.Cfg, err)
+		w.Finish()
+		return
+	}
+	point, shape := c.s("point", "client.finish.afterDone"), c.s("shape", "ClientStream")
+	code := codes.Code(c.p("code", 9))
+	w.SigExtra = fmt.Sprintf("%s/%s/%d/%v", point, shape, c.p("when", 0), code)
+	// the frame that ends the RPC is the close frame; for the beforeAccept point the headers frame
+	// precedes it, so the second arrival is held there
+	parks := []time.Duration{time.Millisecond}
+	if point == "client.recv.beforeAccept" {
+		parks = []time.Duration{0, time.Millisecond}
+	}
+	w.installYield(&YieldPlan{Parks: map[string][]time.Duration{point: parks}})
+	trl := metadata.MD{"t": {"1", "2"}, "u-bin": {"x"}}
+	s := &RPCSpec{ID: "cw", Method: shape,
+		Client:  []Op{{K: "open"}, {K: "send", N: 100}, {K: "sleep", D: time.Duration(300+300*c.p("when", 0)) * time.Microsecond}, {K: "close"}, {K: "trailer"}, {K: "recvall"}, {K: "trailer"}},
+		Handler: []Op{{K: "recv"}, {K: "sethdr", MD: metadata.MD{"h": {"1"}}}, {K: "settrl", MD: trl}, {K: "ret", Code: code, Msg: "ended early"}}}
+	w.Env.StartRPC(w.RootCtx, w.Ch, s)
+	w.Advance(time.Second)
+	for _, r := range w.Env.Log.OpenOps() {
+		w.Violate("C04", "op-hangs:"+r.Side+":"+r.K, "closewindow %s: %s %s[%d] never returned", w.SigExtra, r.Side, r.K, r.Idx)
+	}
+	v := buildViews(w.Env)["cw"]
+	want := mdString(trl)
+	terminalSeq := int64(0)
+	for _, r := range v.all {
+		if r.Side != "client" || r.RetSeq == 0 {
+			continue
+		}
+		switch {
+		case terminalSeq == 0 && r.K == "close" && r.Err != "" && r.Code == code && r.StatusMsg == "ended early":
+			// CloseSend reported the RPC's terminal status
+			terminalSeq = r.RetSeq
+			w.Stat("closewindow_closesend_reported_terminal_status", 1)
+		case terminalSeq == 0 && r.K == "recv" && r.Err != "":
+			terminalSeq = r.RetSeq
+		case r.K == "trailer" && terminalSeq != 0 && r.CallSeq > terminalSeq:
+			w.Stat("closewindow_trailer_reads_after_terminal", 1)
+			if mdString(r.MD) != want {
+				w.Violate("C02", "wrong-trailers", "closewindow %s: Trailer() called after the terminal result had been returned to the caller = %s, the handler set %s", w.SigExtra, mdString(r.MD), want)
+			}
+		}
+	}
+	w.Stat("closewindow_runs", 1)
 	w.Finish()
 }
